@@ -145,6 +145,10 @@ def gen_cases(ck):
         rest = rng.choice(RESTS_OK)
         cases.append(("reload %s %d %s %d %s" % (h(seed), k, h(other), n, hx(rest)),
                       {"t": "reload", "seed": seed, "k": k, "other": other, "n": n, "rest": rest}))
+    # the same through one stream whose locale groups digits (writer and reader see the same stream settings)
+    for i in range(12 * T):
+        cases.append(("reloadfmt %s %d %s %d %d" % (h(rng.choice(seeds)), rng.choice([0, 1, 5, 100]), h(rng.choice(seeds)),
+                                                    rng.choice([4, 8, 16]), i % 3), {"t": "reloadfmt"}))
     # negative control: a digit glued to the saved text (hypothesis of the theorem not met): model == impl only
     for i in range(4):
         cases.append(("reload %s %d %s 4 %s" % (h(rng.getrandbits(64)), i, h(5), hx(b"7")), {"t": "reload-glued"}))
@@ -237,6 +241,16 @@ def judge(ck, cases, hout, mout, crashes):
             ck.add_violation("%s:undefined-behaviour" % ("operator>>" if t.startswith(("load", "reload")) else t),
                              "%s executes undefined behaviour: %s" % (line.split()[0], m.group(0) if m else "sanitizer abort"),
                              {"cases": [line], "impl": ho, "model": mo, "sanitizer": san[-1500:]})
+            continue
+        if t == "reloadfmt":       # implementation only (the codec model has no digit grouping): judged by the oracle
+            parts = ho.split(" | ")
+            ck.nontriv(("reloadfmt", line))
+            if not (ho.startswith("OK ") and len(parts) == 3 and parts[0][3:] == parts[1]):
+                txt = bytes.fromhex(parts[2]).decode("latin1") if len(parts) == 3 and parts[2] != "-" else ""
+                ck.add_violation("reload:stream-locale",
+                                 "a state written to a stream whose locale groups digits (text %r) and read back from the SAME "
+                                 "stream %s" % (txt, "fails to load" if ho.startswith("FAIL") else "continues with a different sequence"),
+                                 {"cases": [line], "impl": ho[:600], "text": txt})
             continue
         if ho != mo:
             ck.add_diff({"line": line}, mo, ho)
